@@ -34,7 +34,7 @@ type c27Run struct {
 
 	mu       sync.Mutex
 	subs     []*opcua.Subscription
-	publish  int // PublishRequests seen on the wire
+	publish  int    // PublishRequests seen on the wire
 	lastHint uint32 // TimeoutHint of the last PublishRequest
 	inflight map[string]time.Duration
 }
